@@ -164,11 +164,17 @@ func init() {
 			c.TokensPerChar = float64(p) / float64(q)
 			return c
 		}
+		hung := 0
 		run := func(text string, unit rag.SizeUnit, maxv, p, q int, tag string) {
+			if hung >= 3 {
+				// calls that never return keep their cores: after three of them the rest of the cases would only crawl
+				return
+			}
 			cfg := mk(unit, maxv, p, q)
 			pieces, ok := c13Split(cfg, text)
 			cv := L(I(0), I(int(unit)), I(maxv), I(p), I(q), Bs(text))
 			if !ok {
+				hung++
 				r.Check(false, "split-hang", fmt.Sprintf("SplitToSize did not return within 5s (unit %v max %d)", unit, maxv), cv)
 				return
 			}
